@@ -11,6 +11,7 @@ logging.Logger.manager.emittedNoHandlerWarning = 1  # noqa
 from logging.config import dictConfig
 from logging.config import fileConfig
 import os
+import re
 import socket
 import sys
 import threading
@@ -92,13 +93,22 @@ def loggers():
     return [logging.getLogger(name) for name in existing]
 
 
+def _escape_ctl(match):
+    return "\\x%02x" % ord(match.group())
+
+
 class SafeAtoms(dict):
+
+    # a record is one line: no raw control character (HTAB aside) from
+    # client-controlled data may reach it
+    CTL_RE = re.compile(r"[\x00-\x08\x0a-\x1f\x7f]")
 
     def __init__(self, atoms):
         dict.__init__(self)
         for key, value in atoms.items():
             if isinstance(value, str):
-                self[key] = value.replace('"', '\\"')
+                value = value.replace('"', '\\"')
+                self[key] = self.CTL_RE.sub(_escape_ctl, value)
             else:
                 self[key] = value
 
